@@ -2242,6 +2242,9 @@ ldb_write(ldb_t *db, ldb_batch_t *updates, const ldb_writeopt_t *options) {
 
       rc = ldb_writer_add_record(db->log, &contents);
 
+      if (rc != LDB_OK)
+        sync_error = 1;
+
       if (rc == LDB_OK && options->sync) {
         rc = ldb_wfile_sync(db->logfile);
 
@@ -2256,7 +2259,9 @@ ldb_write(ldb_t *db, ldb_batch_t *updates, const ldb_writeopt_t *options) {
 
       if (sync_error) {
         /* The state of the log file is indeterminate: the log record we
-           just added may or may not show up when the DB is re-opened.
+           just added may or may not show up when the DB is re-opened,
+           and after a failed append the writer's block offset no longer
+           matches the file, so later records would be unreadable.
            So we force the DB into a mode where all future writes fail. */
         ldb_record_background_error(db, rc);
       }
